@@ -155,7 +155,7 @@ def ser_prog(instrs):
 
 
 # ----------------------------------------------------------------------------- stub simulator
-class StubState(pq.State):
+class _StubStateBase(pq.State):
     def __init__(self, d, connector, config=None):
         super().__init__(connector=connector, config=config)
         self._d = d
@@ -176,7 +176,11 @@ class StubState(pq.State):
         return 1.0
 
 
-class OtherState(StubState):
+class StubState(_StubStateBase):
+    pass
+
+
+class OtherState(_StubStateBase):
     pass
 
 
@@ -187,10 +191,11 @@ def _stub_validate(self, connector):
 
 
 def stub_step(state, instruction, shots):
+    """A scripted simulation step.  Logs what it sees (CStep of the model): the instruction's
+    modes and params at the time of the call and the outcome of the branch it runs on."""
     idx = S.index_of.get(id(instruction), -1)
-    # the branch's outcome is not visible to a step; the executor's bookkeeping is logged by
-    # the caller-side wrapper below (CStep carries the outcome of the branch it ran on)
-    S.log.append([3, idx] + ser_list(instruction.modes) + ser_params(instruction.params) + ["OUTCOME"])
+    oc = outcome_list(getattr(state, "_c12_outcome", ()))
+    S.log.append([3, idx] + ser_list(instruction.modes) + ser_params(instruction.params) + ser_list(oc))
     state.data += 1.0                      # a step works in place on the state it is given
     _, subs = S.pop()
     n = max(len(subs), 1)
@@ -281,15 +286,7 @@ def run_once(sim, prog, events, shots, init):
         r = [err_code(e)]
         if r == [99]:
             r = [99, type(e).__name__]
-    # attach the branch outcome to each step entry: the executor evaluates the condition /
-    # resolves on the same branch just before, but for unconditional resolved instructions
-    # the outcome must come from the executor itself -> recover it from the branch objects
     return r
-
-
-class OutcomeProbe:
-    """Wraps Branch construction is not needed: the executor passes branch.state to the step;
-    we recover the branch outcome by patching _apply_instruction_to_branches' inputs."""
 
 
 def install_outcome_probe():
@@ -308,29 +305,9 @@ def install_outcome_probe():
     pq.Simulator._apply_instruction_to_branches = wrapped
 
 
-def finalize_log(log):
-    out = []
-    for e in log:
-        out.append([x for x in e])
-    return out
-
-
 def stub_section(cases):
     _expressions.Expression.__call__ = _scripted_expr_call
     install_outcome_probe()
-    global stub_step
-
-    def stub_step(state, instruction, shots):  # noqa: F811  (outcome-aware version)
-        idx = S.index_of.get(id(instruction), -1)
-        oc = outcome_list(getattr(state, "_c12_outcome", ()))
-        S.log.append([3, idx] + ser_list(instruction.modes) + ser_params(instruction.params) + ser_list(oc))
-        state.data += 1.0
-        _, subs = S.pop()
-        n = max(len(subs), 1)
-        return [Branch(state=state if k == 0 else state.copy(), outcome=tuple(o), frequency=Fraction(1, n))
-                for k, o in enumerate(subs)]
-
-    globals()["stub_step"] = stub_step
     out = []
     for case in cases:
         spec = case["prog"]
